@@ -127,14 +127,16 @@ class PBar:
         return [(x, {}) for x in self.items]
 
 
-def stage_loop(run, prop, it=None):
+def stage_loop(run, prop, it=None, nch=2, stream_probe=None):
+    """stream_probe: a dict; when given, ONLY the stream-derivation harness runs (real _get_per_chain_rngs on a jump-capable ghost generator, three non-empty
+    stages) and the generator handed to every chain in every stage call is recorded under stream_probe[nch] for the relational obligations of C14"""
     it = it or make_interp(run)
     run.function("mici.samplers.MarkovChainMonteCarloMethod.sample_chains")
     run.function("mici.samplers._check_and_process_init_state")
     run.function("mici.samplers._construct_chain_iterators")
     run.function("mici.samplers._zip_dict")
     tag = P + "sample_chains"
-    NCH = 2
+    NCH = nch
 
     def setup(ctx, opts):
         mod = it.module(MOD)
@@ -168,7 +170,8 @@ def stage_loop(run, prop, it=None):
         rngs = [Opaque(f"rng{c}") for c in range(NCH)]
         it.call_contracts["_init_traces"] = Native(init_traces, "_init_traces")
         it.call_contracts["_init_stats"] = Native(init_stats, "_init_stats")
-        it.call_contracts["_get_per_chain_rngs"] = Native(lambda ex_, rng, n: list(rngs), "_get_per_chain_rngs")
+        if not opts.get("real_rngs"):
+            it.call_contracts["_get_per_chain_rngs"] = Native(lambda ex_, rng, n: list(rngs), "_get_per_chain_rngs")
 
         def chains_func(which):
             def f(ex_, chain_iterators=None, per_chain_kwargs=None, **kw):
@@ -390,7 +393,48 @@ def stage_loop(run, prop, it=None):
         finally:
             teardown()
 
-    it.explore(h, "sample_chains", roots=roots)
+    if stream_probe is None:
+        it.explore(h, "sample_chains", roots=roots)
+
+    def h_streams(ctx):
+        mod, ex, g, inits, trans, rngs = setup(ctx, dict(interrupt_stage=-1, interrupt_returns=NCH, real_rngs=True))
+        made = []
+
+        def default_rng(ex_, src):
+            r = Opaque(f"generator<{getattr(src, '_name', src)}>", stream=getattr(src, "_name", str(src)))
+            made.append(r)
+            return r
+        it.overrides[(MOD, "default_rng")] = Native(default_rng, "default_rng")
+        try:
+            bg = Opaque("bitgen", jumped=Native(lambda ex_, i=1: Opaque(f"base.jumped({i})"), "jumped"))
+            base = Opaque("base_rng", bit_generator=bg)
+            n1, n2, n3 = z3.Int("stage0_n_iter"), z3.Int("stage1_n_iter"), z3.Int("n_main_iter")
+            n_warm = z3.Int("n_warm_up_iter")
+            for v in (n1, n2, n3):
+                ctx.assume(v >= 1)
+            ctx.assume(n1 + n2 == n_warm)
+            stage_cls = it.module("mici.stagers").resolve("ChainStage", ctx)
+
+            def stages(ex_, n_w, n_m, ad, tfs, *, trace_warm_up=False):
+                return {"warm A": ex_.call(stage_cls, [], dict(n_iter=n1, adapters=None, trace_funcs=None, record_stats=True)),
+                        "warm B": ex_.call(stage_cls, [], dict(n_iter=n2, adapters=None, trace_funcs=None, record_stats=True)),
+                        "main": ex_.call(stage_cls, [], dict(n_iter=n3, adapters=None, trace_funcs=None, record_stats=True))}
+            stager = Opaque("stager", stages=Native(stages, "stager.stages"))
+            sampler = ex.call(mod.resolve("MarkovChainMonteCarloMethod", ctx), [base, trans], {})
+            try:
+                ex.call(ex.getattr(sampler, "sample_chains"), [n_warm, n3, inits],
+                        dict(trace_funcs=None, adapters=None, stager=stager, n_process=1, trace_warm_up=True,
+                             force_memmap=False, memmap_path=None, monitor_stats=None, display_progress=False))
+            except PyRaise as pr:
+                stream_probe[NCH] = ("raised", f"{exc_name(pr.exc)} {pr.exc.attrs.get('args')}")
+                return
+            stream_probe[NCH] = [[(id(d["rng"]), getattr(d["rng"], "_attrs", {}).get("stream", repr(d["rng"]))) for d in call["pck"]] for call in g["calls"]]
+        finally:
+            it.overrides.pop((MOD, "default_rng"), None)
+            teardown()
+    if stream_probe is not None:
+        it.explore(h_streams, f"sample_chains.streams[{NCH} chains]")
+        return
 
     def h_drop(ctx):
         """a chain dropped by an adaptive stage (AdaptationError from an adapter's initialize): sample_chains may give up (raise), but if it goes on every
